@@ -420,6 +420,12 @@ func init() {
 		},
 		Rule: "3-5 clients mix commits, CommitWith, reads, iterators, WriteBatch.Flush, RunValueLogGC, DropAll, DropPrefix, Flatten and Subscribe/cancel against 2-4 real compactors with one or two memtables and an L0 stall limit one above the compaction trigger (writers stall on a full L0 / memtable queue), and Close starts while CommitWith callbacks are still in flight; oracles: deadlock detector (nothing runnable and 90 simulated seconds change nothing), step budget (every call returns within the budget once the scheduler is fair), every callback runs, and a real-time watchdog that classifies a wedged bubble whose goroutines all sit in badger code with a mutex waiter as a lock-order deadlock. non-trivial = run in which a writer actually hit the L0 stall",
 	})
+	// C22 skiplist
+	register(&Scenario{Prop: "C22", Family: "S", Level: "exploration", Gen: genSklCase,
+		Run:  func(t *testing.T, c *Case, keep bool) Outcome { return ExecuteSkiplist(t, c, keep) },
+		Rule: "2-4 writer goroutines put 1-12 internal keys each (<=6 user keys that share prefixes, versions 1-4, so the same internal key is overwritten concurrently) into one real skl.Skiplist while 1-3 readers Get and iterate in both directions; schedule points before every CAS / setValue / height CAS of Put let the scheduler interleave at the granularity of the lock-free algorithm; oracles: porcupine linearizability of the Put/Get history per user key against a sorted-map model (Get = newest version <= ts), every iteration strictly sorted, duplicate-free, containing every key whose Put returned before it began and only values some Put wrote for that key, final content = one of the last concurrent writers per key. non-trivial = run with an iteration that returned >=2 entries",
+		Real: []string{"skl.Skiplist and its arena (real code, tag verif)"}, Stubs: []string{"goroutine scheduling (vhook points before each CAS)", "tower heights (case PRNG)"},
+	})
 	// C04 own writes
 	p4 := profT("T-C04")
 	p4.WIter = 5
